@@ -58,6 +58,16 @@ def run(pid, tier, seed):
     inp = os.path.join(work, "in.txt")
     open(inp, "w").write("\n".join(lines) + "\n")
     states = trans = events = 0
+    # the Format specification itself: every format of <= 3 (quick) / 4 (thorough) tokens
+    mcfg = V.write_cfg(os.path.join(work, "MCFormat.cfg"), "SPECIFICATION Spec\nCONSTANT MaxTok = %d\nINVARIANTS Partition NoHidden Escapes CutFree\nCHECK_DEADLOCK FALSE\n"
+                       % (4 if tier == "thorough" else 3))
+    r = V.tlc("MCFormat", mcfg, workers=8, timeout=3000, heap="8g")
+    states += r.distinct
+    trans += r.generated
+    if r.verdict_violation:
+        verdict.violation("spec:MCFormat", "the Format specification violates one of its own laws:\n" + r.tail(25))
+    elif not r.ok:
+        verdict.infra_failure("MCFormat: " + r.tail(5))
     samples = []
     seen = set()
     try:
